@@ -146,6 +146,7 @@ type callCtx struct {
 	pos   token.Pos
 	isGo  bool
 	self  *Val // the function value being called (callback roles): bound to self_
+	fn    *ssa.Function // static in-package callee (modular replay stubs it)
 }
 
 func (x *Exec) applySpec(st *State, fs *FuncSpec, names []string, args []Val, sig *types.Signature, cc callCtx) Val {
@@ -341,6 +342,12 @@ func (x *Exec) applySpec(st *State, fs *FuncSpec, names []string, args []Val, si
 		st.events = &evNode{ev: &extEvent{kind: "method", key: fs.Name, recv: args[0], res: res, sig: sig, post: st.snap()}, prev: st.events}
 	} else if strings.HasPrefix(cc.label, "role:") && cc.self != nil {
 		st.events = &evNode{ev: &extEvent{kind: "role", key: fs.Name, recv: *cc.self, res: res, sig: sig, post: st.snap()}, prev: st.events}
+	} else if cc.fn != nil {
+		vcopy := make(map[string]Val, len(names))
+		for i, n := range names {
+			vcopy[n] = args[i]
+		}
+		st.events = &evNode{ev: &extEvent{kind: "func", key: cc.label, res: res, sig: sig, post: st.snap(), fs: fs, vars: vcopy, fn: cc.fn, pos: cc.pos}, prev: st.events}
 	}
 	return res
 }
@@ -498,12 +505,31 @@ func (x *Exec) callFunction(st *State, f *ssa.Function, bindings []Val, args []V
 			names = append(append([]string(nil), names...), fn2...)
 			args = append(append([]Val(nil), args...), fa...)
 		}
-		return true, x.applySpec(st, fs, names, args, f.Signature, callCtx{label: name, pos: pos})
+		cc := callCtx{label: name, pos: pos}
+		if inPkg && f.Parent() == nil && f.Synthetic == "" {
+			cc.fn = f
+		}
+		return true, x.applySpec(st, fs, names, args, f.Signature, cc)
 	}
 	// no contract: inline closures and synthetic wrappers; otherwise havoc
 	if f.Blocks != nil && (f.Parent() != nil || f.Synthetic != "") && len(st.frames) < 8 {
 		x.inline(st, f, bindings, args, k)
 		return false, Val{}
+	}
+	// an in-package helper without a contract (typically the product of a refactoring) is
+	// inlined rather than treated as unknown code, unless it is (mutually) recursive
+	if inPkg && f.Blocks != nil && len(st.frames) < 4 {
+		onStack := false
+		for _, fr := range st.frames {
+			if fr.fn == f {
+				onStack = true
+			}
+		}
+		if !onStack {
+			x.notes = append(x.notes, "uncontracted in-package function inlined: "+name)
+			x.inline(st, f, bindings, args, k)
+			return false, Val{}
+		}
 	}
 	return true, x.unknownCall(st, name, f.Signature, pos)
 }
